@@ -791,16 +791,22 @@ class HistogramBase(abc.ABC):
         result: Dict[str, Any] = {}
         result["histogram_type"] = type(self).__name__
         result["binnings"] = [binning.to_dict() for binning in self._binnings]
+        def to_list(array: np.ndarray) -> list:
+            if array.dtype == np.longdouble and array.dtype != np.float64:
+                # Extended precision does not fit JSON numbers: decimal strings are read back exactly
+                return array.astype(str).tolist()
+            return array.tolist()
+
         if self.frequencies is not None:
-            result["frequencies"] = self.frequencies.tolist()
+            result["frequencies"] = to_list(self.frequencies)
         else:
             result["frequencies"] = None
         result["dtype"] = str(np.dtype(self.dtype))
 
         # TODO: Optimize for _errors == _frequencies
-        result["errors2"] = self.errors2.tolist()
+        result["errors2"] = to_list(self.errors2)
         result["meta_data"] = self._meta_data
-        result["missed"] = self._missed.tolist()
+        result["missed"] = to_list(self._missed)
         result["missed_keep"] = self.keep_missed
         self._update_dict(result)
         return result
